@@ -437,3 +437,24 @@ func VHNewFixtureN(n int) *VHFixture {
 
 // VHRebuild builds a fresh cache from the fixture's git data.
 func (f *VHFixture) VHRebuild() *RepoCache { return vhRebuild(f.w) }
+
+// VHNewWipeFixture: alice, bob and one bug per element of kinds: 0 local only, 1 local and
+// held by remote origin, 2 fetched from origin but never merged (tracking ref only). Bob
+// is also held by the remote. Remote "origin" is configured.
+func VHNewWipeFixture(kinds []int) *VHFixture {
+	w := vhNewWorld()
+	w.r.Remotes["origin"] = "/somewhere"
+	for i, k := range kinds {
+		id, h := w.storeBug(i, w.bob, fmt.Sprintf("t%d", i), i%2)
+		if k != 2 {
+			w.r.SetRef("refs/bugs/"+id.String(), h)
+		}
+		if k != 0 {
+			w.r.SetRef("refs/remotes/origin/bugs/"+id.String(), h)
+		}
+	}
+	bh, _ := w.r.ResolveRef("refs/identities/" + w.bob.Id().String())
+	w.r.SetRef("refs/remotes/origin/identities/"+w.bob.Id().String(), bh)
+	w.syncClocks()
+	return &VHFixture{Repo: w.r, Alice: w.alice.Id(), Bob: w.bob.Id(), w: w}
+}
